@@ -97,9 +97,9 @@ class RvBuilder(ref.Builder):
     def build(self, n):
         if n[0] == 'rv':
             import biogeme.expressions as ex
-            if 'rv' not in self.refs:
-                self.refs['rv'] = ex.RandomVariable(n[1])
-            return self.refs['rv']
+            if ('rv', n[1]) not in self.refs:
+                self.refs[('rv', n[1])] = ex.RandomVariable(n[1])
+            return self.refs[('rv', n[1])]
         return super().build(n)
 
 
@@ -504,10 +504,23 @@ class Session:
                      ['+', ['num', 1.0], ['*', ['num', 0.1], ['var', 'x0']]]]
             b = RvBuilder({k_: (v, None, None, 0) for k_, v in BETAS.items()}, share_elementary=True)
             e = ex.Integrate(b.build(g), 'omega')
+            g2 = None
+            if inside_mc:
+                # a second integral, over another variable (whose name sorts before or after the first one), next to the
+                # first one in the same formula: each integral is over its own variable
+                al = ['rv', 'alpha' if k % 2 else 'zeta']
+                q2 = ['-', al, ['*', ['num', 0.3], ['var', 'x0']]]
+                g2 = ['*', ['exp', ['neg', ['*', q2, q2]]], ['+', ['num', 1.5], ['sin', ['*', ['beta', 'b1'], al]]]]
+                e2 = ex.Integrate(b.build(g2), al[1])
+                e = (e + 0.5 * e2) if fam % 2 else (0.5 * e2 + e)
+                ctx.probe('two numerical integrals over different variables in one formula')
             got = e.get_value_c(database=self.db, betas=betas, aggregation=False, prepare_ids=True)
             for i_, row in enumerate(self.rows):
                 f = lambda o, row=row: ref.ev(g, RvEnv(row, betas, o))
                 want = quad(f, -14.0, 14.0, epsabs=1e-13, epsrel=1e-12, limit=200)[0]
+                if g2 is not None:
+                    f2 = lambda o, row=row: ref.ev(g2, RvEnv(row, betas, o))
+                    want += 0.5 * quad(f2, -14.0, 14.0, epsabs=1e-13, epsrel=1e-12, limit=200)[0]
                 if not ref.close(float(got[i_]), want, 1e-7, 1e-10):
                     ctx.fail('I10.integral', f'Integrate (family {fam}) on row {i_}: {float(got[i_])!r}, the integral over the '
                                              f'real line is {want!r}')
